@@ -22,6 +22,7 @@ Directive language (each directive is a line starting with `//@`):
       //@ after `anchor` [#k]           following `|` lines are inserted right after the k-th
       //@ before `anchor` [#k]          (default: only) occurrence of anchor in the fn text
       //@ rewrite <RULE> `from` => `to` logged replacement of repo text (must match exactly once)
+      //@ mapcollect <RULE> `E` it=.. out=..   `E.map(|p| B).collect::<Vec<_>>()` becomes the loop that defines it (rule R20)
       //@ attr <text>                   attribute line put in front of the fn
       //@ ret <ident>                   name of the return value (default r)
   //@ end                               closes fn / freefn
@@ -270,6 +271,9 @@ def fn_shape(text, mask):
         if before[-1] in '(,={;' or re.search(r'\b(?:move|return)$', before):
             n += 1
     sh['closure'] = n
+    # mutable locals: state carried across statements / loop iterations needs an invariant or a hint of its own (a cache, a counter,
+    # an accumulator introduced by an optimisation); a proof that fails in a function that gained one is "needs contract"
+    sh['letmut'] = len(re.findall(r'\blet\s+mut\b', code))
     for a in ADAPTORS:
         k = len(re.findall(r'\.\s*%s\s*(?:::\s*<[^()]*>\s*)?\(' % a, code))
         if k:
@@ -522,6 +526,14 @@ class Extractor:
                 if not m:
                     raise ValueError('%s:%d: bad closure directive' % (tname, ln))
                 cur.edits.append(dict(op='closure', rule=m.group(1), frm=m.group(2), to=m.group(3), let=m.group(4) or '', scope=cur_scope, optional=(word == 'closure?')))
+            elif word == 'mapcollect':
+                # //@ mapcollect R20 `E` [`Vec<T>`] it=it0 out=out0 cnt=n0 item=x0
+                #   + `|` lines: loop spec;  `|@pre` before the loop, `|@iter` at the start of the loop body, `|@item` at the start of the Some arm, `|@post` at its end, `|@end` after the loop
+                opts = dict(b.split('=', 1) for b in bare[1:] if '=' in b)
+                tl = []
+                cur.edits.append(dict(op='mapcollect', rule=bare[0], anchor=quoted[0], ty=(quoted[1] if len(quoted) > 1 else None), it=opts.get('it', 'it0'),
+                                      out=opts.get('out', 'out0'), cnt=opts.get('cnt', 'n0'), item=opts.get('item', 'x0'), lines=tl, scope=cur_scope))
+                target = tl
             elif word == 'attr':
                 cur.attrs.append(rest.strip())
             elif word == 'ret':
@@ -876,8 +888,11 @@ class Extractor:
                 if not ms:
                     raise LostAnchor('%s: fn %s: `%s` does not occur' % (rel, spec.name, e['anchor']))
                 starts = set()
-                for m in ms:
-                    j = lo + m.start() - 1
+
+                def stmt_start(p0):
+                    """start of the statement (of the innermost enclosing BLOCK) that contains position p0; braces of a `match`
+                    body are not blocks: a call in an arm expression belongs to the statement the whole `match` belongs to"""
+                    j = p0 - 1
                     depth = 0
                     while j > bopen:
                         if mask[j]:
@@ -886,10 +901,68 @@ class Extractor:
                                 depth += 1
                             elif c in '([':
                                 depth -= 1
-                            elif depth <= 0 and c in ';{}':
+                            elif depth <= 0 and c == '}':
+                                # a closed brace group before us on the same level: a previous statement / arm body - or part of this one?
+                                ob = j
+                                d2 = 0
+                                while ob > bopen:
+                                    if mask[ob]:
+                                        if text[ob] == '}':
+                                            d2 += 1
+                                        elif text[ob] == '{':
+                                            d2 -= 1
+                                            if d2 == 0:
+                                                break
+                                    ob -= 1
+                                # are we inside match arms?  then the enclosing `{` decides; keep scanning from before this group
+                                k2 = ob - 1
+                                encl = None
+                                d3 = 0
+                                while k2 > bopen:
+                                    if mask[k2]:
+                                        if text[k2] in '})]':
+                                            d3 += 1
+                                        elif text[k2] in '{([':
+                                            if d3 == 0:
+                                                encl = k2
+                                                break
+                                            d3 -= 1
+                                    k2 -= 1
+                                if encl is not None and text[encl] == '{' and is_match_brace(encl):
+                                    return stmt_start(match_kw(encl))
+                                break
+                            elif depth <= 0 and c == '{':
+                                if is_match_brace(j):
+                                    return stmt_start(match_kw(j))
+                                break
+                            elif depth <= 0 and c == ';':
                                 break
                         j -= 1
-                    starts.add(j + 1)
+                    return j + 1
+
+                def match_kw(ob):
+                    """position of the `match` keyword whose body opens at ob"""
+                    j = ob - 1
+                    depth = 0
+                    while j > bopen:
+                        if mask[j]:
+                            c = text[j]
+                            if c in ')]}':
+                                depth += 1
+                            elif c in '([{':
+                                depth -= 1
+                            elif depth == 0 and c == ';':
+                                break
+                            if depth == 0 and text.startswith('match', j) and not (text[j - 1].isalnum() or text[j - 1] == '_') and not (text[j + 5].isalnum() or text[j + 5] == '_'):
+                                return j
+                        j -= 1
+                    return None
+
+                def is_match_brace(ob):
+                    return match_kw(ob) is not None
+
+                for m in ms:
+                    starts.add(stmt_start(lo + m.start()))
                 for st in sorted(starts):
                     edits.append((st, 0, ghost(e['lines']), True, 2))
                     spec.ghost_lines += len(e['lines'])
@@ -1002,6 +1075,63 @@ class Extractor:
                             norm(e['to']) + ' { ' + let_txt + ' BODY }')
                 edits.append((lo + m.start(), m.end() - m.start(), e['to'] + ' { ' + let_txt + ' ', False))
                 edits.append((bend, 0, ' }', False, 0))
+            elif op == 'mapcollect':
+                # rule R20: an iterator pipeline that ends in `collect` into a Vec is replaced by the loop std defines it by
+                #   (a) `E.map(|p| BODY).collect()`                  -> .. Some(p) => { OUT.push(BODY); } ..
+                #   (b) `E.enumerate().map(|(i, p)| BODY).collect()` -> .. Some(p) => { let i = CNT; CNT += 1; OUT.push(BODY); } ..     (Enumerate::next)
+                #   (c) `E.filter(|p| COND).collect()`               -> .. Some(x) => { if { let p = &x; COND } { OUT.push(x); } } ..   (Filter::next)
+                # framed as `{ let mut OUT = Vec::new(); let mut IT = E; loop SPEC { match IT.next() { Some(..) => {..} None => { break; } } } OUT }`:
+                # next() until None, results pushed in order (Iterator::map / Enumerate / Filter + Vec's FromIterator).
+                # E, the closure parameters and BODY / COND are repo text, untouched.  Verus has no closures capturing `&mut`, no
+                # specification of `enumerate`, and only a prophetic one of `filter`; loops take invariants.
+                if spec.external:
+                    continue
+                ms = [x for x in flex(e['anchor']).finditer(seg) if mask[lo + x.start()]]
+                if len(ms) != 1:
+                    raise LostAnchor('%s: fn %s: pipeline source `%s` found %d times' % (rel, spec.name, e['anchor'], len(ms)))
+                m = ms[0]
+                a0, a1 = lo + m.start(), lo + m.end()
+                pos = a1
+                men = re.compile(r'\s*\.\s*enumerate\s*\(\s*\)').match(text, pos)
+                if men:
+                    pos = men.end()
+                mm = re.compile(r'\s*\.\s*(map|filter)\s*\(\s*\|\s*(?:\(\s*([A-Za-z_]\w*)\s*,\s*([A-Za-z_]\w*)\s*\)|([A-Za-z_]\w*))\s*\|\s*').match(text, pos)
+                if not mm or bool(men) != bool(mm.group(2)) or (men and mm.group(1) != 'map'):
+                    raise LostAnchor('%s: fn %s: `%s` is not followed by one of the pipeline shapes of rule R20' % (rel, spec.name, e['anchor']))
+                po = text.index('(', mm.start() + text[mm.start():].index(mm.group(1)))
+                pc = match_close(text, mask, po)
+                mc = re.compile(r'\s*\.\s*collect\s*(?:::\s*<\s*Vec\s*<\s*_\s*>\s*>\s*)?\(\s*\)').match(text, pc + 1)
+                if not mc:
+                    raise LostAnchor('%s: fn %s: the pipeline does not end in `.collect()` / `.collect::<Vec<_>>()`' % (rel, spec.name))
+                slots = {'spec': [], 'pre': [], 'iter': [], 'item': [], 'post': [], 'end': []}
+                for l in e['lines']:
+                    ms_ = re.match(r'@(pre|iter|item|post|end)\s?(.*)$', l)
+                    if ms_:
+                        slots[ms_.group(1)].append(ms_.group(2))
+                    else:
+                        slots['spec'].append(l)
+                OUT, IT, CNT = e['out'], e['it'], e['cnt']
+                kind_p = mm.group(1)
+                P = mm.group(3) if men else mm.group(4)
+                body_txt = text[mm.end():pc].rstrip()
+                decl = '{ let mut %s%s = Vec::new(); ' % (OUT, (': ' + e['ty']) if e.get('ty') else '')
+                if men:
+                    decl += 'let mut %s: usize = 0; ' % CNT
+                if kind_p == 'map':
+                    head = 'Some(%s) => {' % P + (' let %s = %s; %s += 1;' % (mm.group(2), CNT, CNT) if men else '')
+                    arm_a, arm_b = '%s.push(' % OUT, ');'
+                    shape = '%s %s.push(%s); }' % (head, OUT, norm(body_txt))
+                else:
+                    X = e['item']
+                    head = 'Some(%s) => {' % X
+                    arm_a, arm_b = 'if { let %s = &%s; ' % (P, X), ' } { %s.push(%s); }' % (OUT, X)
+                    shape = '%s if { let %s = &%s; %s } { %s.push(%s); } }' % (head, P, X, norm(body_txt), OUT, X)
+                self.log.rw(e['rule'], rel, line0 + text.count('\n', 0, a0), norm(text[a0:mc.end()]),
+                            '%slet mut %s = %s; loop { match %s.next() { %s None => { break; } } } %s }' % (decl, IT, norm(text[a0:a1]), IT, shape, OUT))
+                edits.append((a0, 0, decl + 'let mut %s = ' % IT, False, 2))   # after any ghost text anchored before the tail
+                edits.append((a1, mm.end() - a1, ';' + ghost(slots['pre']) + 'loop' + ghost(slots['spec']) + '{' + ghost(slots['iter']) + 'match %s.next() { %s' % (IT, head) + ghost(slots['item']) + arm_a, False))
+                edits.append((pc, mc.end() - pc, arm_b + ghost(slots['post']) + '} None => { break; } } }' + ghost(slots['end']) + OUT + ' }', False))
+                spec.ghost_lines += len(e['lines'])
             elif op == 'rewrite':
                 if spec.external and e['rule'] not in ('RET', 'SIG'):
                     continue
